@@ -548,6 +548,8 @@ class Path(PathDeprecations):
             if path == "-":
                 self._std_io = True
             path = os.fspath(path)
+            if isinstance(path, str) and "\0" in path:
+                raise PathError(f"Path contains a null byte: {path!r}")
             cwd = os.fspath(cwd) if cwd else None
             abs_path = os.path.expanduser(path)
             if self._file_scheme.match(abs_path):
